@@ -9,9 +9,17 @@ GInit == Init /\ act = [a |-> "Init", d |-> 0, ok |-> FALSE]
 L(a, d, ok) == act' = [a |-> a, d |-> d, ok |-> ok]
 \* (the harness lets the real system run to quiescence after every event, so a stop() that overtakes
 \* a due attempt or probe is not generated here; Link.tla itself allows and checks it)
+\* serial_asyncio opens the port synchronously: no other event can fall inside that dial
+CanHold == ~(Dev = "serial" /\ Fl = "async")
 Sys == \/ (Attempt(TRUE) /\ L("Attempt", 0, TRUE))
        \/ (Attempt(FALSE) /\ L("Attempt", 0, FALSE))
        \/ (Watchdog /\ L("Watchdog", 0, FALSE))
+       \/ (CanHold /\ DialBegin /\ L("DialBegin", 0, FALSE))
+\* while a dial is in flight: it ends, the clock moves a little (well inside any connect timeout), or stop() is called
+EnvD == \/ (DialEnd(TRUE) /\ L("DialEnd", 0, TRUE))
+        \/ (DialEnd(FALSE) /\ L("DialEnd", 0, FALSE))
+        \/ (~stopped /\ Stop /\ L("Stop", 0, FALSE))
+        \/ (\E d \in {1, 2, 3} : now + d < attempts[Len(attempts)] + R - 3 /\ Tick(d) /\ L("Tick", d, FALSE))
 Env == \/ (Start /\ L("Start", 0, FALSE))
        \/ (ReadError /\ L("ReadError", 0, FALSE))
        \/ (WriteError /\ L("WriteError", 0, FALSE))
@@ -25,6 +33,7 @@ EnvW == \/ (Answer /\ L("Answer", 0, FALSE))
 NotStarted == attempts = <<>> /\ loop = "idle" /\ ~stopped
 GNext == IF NotStarted THEN (Start /\ L("Start", 0, FALSE))
          ELSE IF Urgent THEN Sys
+         ELSE IF loop = "dialing" THEN EnvD
          ELSE IF stopped THEN (\E d \in {1, R + 1, 2 * R + 3} : Tick(d) /\ L("Tick", d, FALSE))
          ELSE IF Focus = "watchdog" /\ live # 0 THEN EnvW
          ELSE Env
